@@ -30,6 +30,23 @@ Theorem same_blocks_same_length : forall n m, blocks n = blocks m -> request_wir
 Proof. exact wire_len_same_blocks_l. Qed.
 Print Assumptions same_blocks_same_length.
 
+(** ... and the length reveals exactly the block count: equal lengths iff equal block counts *)
+Theorem length_reveals_exactly_blocks : forall n m, request_wire_len n = request_wire_len m <-> blocks n = blocks m.
+Proof. exact wire_len_iff_blocks_l. Qed.
+Print Assumptions length_reveals_exactly_blocks.
+
+(** [blocks n] is "the number of 32-byte blocks needed to hold the name": the least k >= 1 with n <= 32 k *)
+Theorem blocks_is_least : forall n, (1 <= blocks n /\ n <= 32 * blocks n)%nat /\
+  forall k, (1 <= k)%nat -> (n <= 32 * k)%nat -> (blocks n <= k)%nat.
+Proof. exact blocks_least_l. Qed.
+Print Assumptions blocks_is_least.
+
+(** what is sealed is the name itself followed by at most 32 zero bytes — no other byte is added or changed *)
+Theorem pad_shape : forall name, exists z, pad name = name ++ repeat x00 z /\ (z <= 32)%nat /\
+  firstn (length name) (pad name) = name.
+Proof. exact pad_shape_l. Qed.
+Print Assumptions pad_shape.
+
 (** the side condition "does not end in a zero byte" cannot be dropped *)
 Theorem zero_suffix_names_collide : exists a b, a <> b /\ unpad (pad a) = unpad (pad b).
 Proof. exact zero_suffix_collides. Qed.
